@@ -70,7 +70,7 @@ CONFIGS = {
                                              'changes': ('label', 'review', 'target', 'push')}},
                                 ROOTS2, {'quick': None, 'thorough': 4}),
 }
-STATE_CAP = 3_000_000
+STATE_CAP = 5_000_000
 
 
 def _lst(x):
